@@ -23,11 +23,12 @@
     otherwise handler selection (resource + label filter), the in-memory retry state
     (`progression.State`: `with_handlers`, `awakened` = not failed and not sleeping,
     `with_outcomes`, `without_successes`), `execute_handler_once`'s outcome table (retries limit,
-    look-ahead retries, errors mode with the indexing default IGNORED, backoff).
+    timeout, look-ahead of both, errors mode with the indexing default IGNORED, backoff).
   * `process_resource_event`: the memory is forgotten on `DELETED` before indexing.
 
-  Not modelled (stated limits): `timeout=` (needs wall-clock runtime arithmetic; it only turns a
-  temporary error into a permanent one — both discard), sub-handlers, duplicate handler ids,
+  `timeout=` is modelled in whole seconds of the loop clock (`started` of the series, the strict
+  check before the call and the look-ahead check after a temporary failure).
+  Not modelled (stated limits): sub-handlers, duplicate handler ids,
   `annotations=/when=/field=` filters (C15's subject; one label filter stands for "a filter").
 -/
 namespace Kopf.C17
@@ -171,14 +172,16 @@ structure HState where
   retries : Nat
   delayed : Option Nat
   failed : Bool
+  started : Nat              -- `HandlerState.started`: the time of the first attempt of the series
   deriving DecidableEq, Repr
 
-def HState.scratch : HState := ⟨0, none, false⟩
+/-- `HandlerState.from_scratch` at loop time `now` -/
+def HState.scratch (now : Nat) : HState := ⟨0, none, false, now⟩
 
-/-- `State.with_handlers`: a selected handler without a record starts from scratch. -/
-def HState.ofOpt : Option HState → HState
+/-- `State.with_handlers`: a selected handler without a record starts from scratch (now). -/
+def HState.ofOpt (now : Nat) : Option HState → HState
   | some h => h
-  | none => HState.scratch
+  | none => HState.scratch now
 
 /-- `HandlerState.awakened` at loop time `now`. -/
 def HState.awake (h : HState) (now : Nat) : Bool :=
@@ -191,6 +194,7 @@ structure Indexer (Id Res L : Type) where
   errors : Option Mode       -- `errors=`; none ↦ the indexing default IGNORED
   retries : Option Nat       -- `retries=`
   backoff : Option Nat       -- `backoff=`; none ↦ settings.execution.default_backoff
+  timeout : Option Nat       -- `timeout=` (whole seconds since the first attempt of the series)
   deriving Repr
 
 structure Event (Id Res L K V O : Type) where
@@ -204,29 +208,46 @@ structure Event (Id Res L K V O : Type) where
 section Exec
 variable {Id Res L K V O : Type}
 
-/-- `execute_handler_once` for an indexing handler (`default_errors = IGNORED`). -/
-def execOne (c : Indexer Id Res L) (defaultBackoff : Nat) (h : HState) (s : Script K V) : Outcome K V :=
-  let limited : Bool := match c.retries with | some r => decide (h.retries ≥ r) | none => false
-  let lookahead : Bool := match c.retries with | some r => decide (h.retries + 1 ≥ r) | none => false
-  let backoff := match c.backoff with | some b => b | none => defaultBackoff
+/-- The strict checks before the call: `state.runtime >= handler.timeout` (HandlerTimeoutError) or
+    `state.retries >= handler.retries` (HandlerRetriesError) — the function is not called. -/
+def Indexer.exhausted (c : Indexer Id Res L) (h : HState) (now : Nat) : Bool :=
+  (match c.timeout with | some T => decide (now - h.started ≥ T) | none => false) ||
+  (match c.retries with | some r => decide (h.retries ≥ r) | none => false)
+
+/-- The look-ahead checks after a temporary failure with the given delay: the next attempt would
+    be over the timeout / over the retries limit, so the failure is final already. -/
+def Indexer.lookahead (c : Indexer Id Res L) (h : HState) (now delay : Nat) : Bool :=
+  (match c.timeout with | some T => decide (now - h.started + delay ≥ T) | none => false) ||
+  (match c.retries with | some r => decide (h.retries + 1 ≥ r) | none => false)
+
+/-- `handler.backoff if handler.backoff is not None else settings.execution.default_backoff` -/
+def Indexer.backoffOr (c : Indexer Id Res L) (defaultBackoff : Nat) : Nat := c.backoff.getD defaultBackoff
+
+/-- `execute_handler_once` for an indexing handler (`default_errors = IGNORED`) at loop time `now`. -/
+def execOne (c : Indexer Id Res L) (defaultBackoff : Nat) (now : Nat) (h : HState) (s : Script K V) :
+    Outcome K V :=
+  let backoff := c.backoffOr defaultBackoff
   let mode := match c.errors with | some m => m | none => Mode.ignored
-  if limited then ⟨true, none, true, none⟩                    -- HandlerRetriesError, fn not called
+  if c.exhausted h now then ⟨true, none, true, none⟩          -- timeout / retries error, fn not called
   else match s with
     | .dict m => ⟨true, none, false, some m⟩
     | .scalar v => ⟨true, none, false, some [(none, v)]⟩
     | .none => ⟨true, none, false, none⟩
-    | .tempErr d => if lookahead then ⟨true, none, true, none⟩ else ⟨false, d, true, none⟩
+    | .tempErr d =>                                           -- `e.delay or 0` in the look-ahead
+      if c.lookahead h now (d.getD 0) then ⟨true, none, true, none⟩
+      else ⟨false, d, true, none⟩
     | .permErr => ⟨true, none, true, none⟩
     | .otherErr =>
       match mode with
       | .ignored => ⟨true, none, false, none⟩
-      | .temporary => if lookahead then ⟨true, none, true, none⟩ else ⟨false, some backoff, true, none⟩
+      | .temporary => if c.lookahead h now backoff then ⟨true, none, true, none⟩
+                      else ⟨false, some backoff, true, none⟩
       | .permanent => ⟨true, none, true, none⟩
 
 /-- `HandlerState.with_outcome` followed by `State.without_successes` for that handler. -/
 def HState.next (h : HState) (now : Nat) (out : Outcome K V) : Option HState :=
   if out.final && !out.exception then none
-  else some ⟨h.retries + 1, out.delay.map (now + ·), out.final && out.exception⟩
+  else some ⟨h.retries + 1, out.delay.map (now + ·), out.final && out.exception, h.started⟩
 
 variable [DecidableEq Res] [DecidableEq L]
 
@@ -294,7 +315,7 @@ def discardAll (ids : List Id) (o : O) (ixs : Id → Index (Option K) V O) :
   foldUpd (fun _ ix => ix.discard o none) ids ixs
 
 /-- `State.with_handlers`: the state a selected handler runs with. -/
-def hstateOf (mem : Id → Option HState) (i : Id) : HState := HState.ofOpt (mem i)
+def hstateOf (now : Nat) (mem : Id → Option HState) (i : Id) : HState := HState.ofOpt now (mem i)
 
 /-- The indexing part of `process_resource_event` for one event. -/
 def step (veq : V → V → Bool) (cfg : List (Indexer Id Res L)) (defaultBackoff : Nat)
@@ -310,17 +331,17 @@ def step (veq : V → V → Bool) (cfg : List (Indexer Id Res L)) (defaultBackof
     | some ixs' => some ⟨ixs', mem0⟩
   else
     let sel := cfg.filter (fun c => c.selects e)             -- get_handlers(cause)
-    let todo := sel.filter (fun c => (hstateOf (s.mem e.obj) c.id).awake e.t)
+    let todo := sel.filter (fun c => (hstateOf e.t (s.mem e.obj) c.id).awake e.t)
     let outs : List (Id × Outcome K V) :=
-      todo.map (fun c => (c.id, execOne c defaultBackoff (hstateOf (s.mem e.obj) c.id) (e.script c.id)))
+      todo.map (fun c => (c.id, execOne c defaultBackoff e.t (hstateOf e.t (s.mem e.obj) c.id) (e.script c.id)))
     match replaceAll veq ids e.obj outs s.ixs with
     | none => none
     | some ixs' =>
       -- `state.with_handlers(sel).with_outcomes(outcomes).without_successes()`
       let memo : Id → Option HState := fun i =>
         match aget i outs with
-        | some out => (hstateOf (s.mem e.obj) i).next e.t out
-        | none => if sel.any (fun c => decide (c.id = i)) then some (hstateOf (s.mem e.obj) i)
+        | some out => (hstateOf e.t (s.mem e.obj) i).next e.t out
+        | none => if sel.any (fun c => decide (c.id = i)) then some (hstateOf e.t (s.mem e.obj) i)
                   else s.mem e.obj i
       some ⟨ixs', upd s.mem e.obj memo⟩
 
@@ -367,33 +388,31 @@ inductive Rule (K V : Type) where
   | dropRetry (delay : Option Nat)       -- temporary: "remove … and exclude … for a specified duration"
   | dropForever                          -- permanent: "remove … and exclude … from future indexing"
 
-/-- The rule for a call, by result kind, `errors=` mode and the `retries=` budget. -/
-def rule (c : Indexer Id Res L) (defaultBackoff : Nat) (h : HState) : Script K V → Rule K V
+/-- The rule for a call at time `now`, by result kind, `errors=` mode and the `retries=`/`timeout=`
+    budget of the series that started at `h.started`. -/
+def rule (c : Indexer Id Res L) (defaultBackoff : Nat) (now : Nat) (h : HState) : Script K V → Rule K V
   | .dict m => .set m
   | .scalar v => .set [(none, v)]
   | .none => .keep
   | .permErr => .dropForever
   | .tempErr d =>
-    (match c.retries with
-     | some r => if h.retries + 1 ≥ r then .dropForever else .dropRetry d
-     | none => .dropRetry d)
+    if c.lookahead h now (d.getD 0) then .dropForever else .dropRetry d
   | .otherErr =>
     (match c.errors with
      | none | some .ignored => .keep
      | some .permanent => .dropForever
      | some .temporary =>
-       let b := match c.backoff with | some b => b | none => defaultBackoff
-       match c.retries with
-       | some r => if h.retries + 1 ≥ r then .dropForever else .dropRetry (some b)
-       | none => .dropRetry (some b))
+       let b := c.backoffOr defaultBackoff
+       if c.lookahead h now b then .dropForever else .dropRetry (some b))
 
 /-- Reference state of one (index, object) pair: the object's latest contribution (`[]` = none)
     and its exclusion record. -/
 structure RefSt (K V : Type) where
   contrib : List (Option K × V)
   excl : Option HState
+  hist : List (List (Option K × V))   -- every mapping this function has returned for this object so far
 
-def RefSt.init {K V : Type} : RefSt K V := ⟨[], none⟩
+def RefSt.init {K V : Type} : RefSt K V := ⟨[], none, []⟩
 
 /-- One event, seen from one (index `c`, object `o`) pair. -/
 def refStep (cfg : List (Indexer Id Res L)) (defaultBackoff : Nat) (c : Indexer Id Res L) (o : O)
@@ -401,19 +420,19 @@ def refStep (cfg : List (Indexer Id Res L)) (defaultBackoff : Nat) (c : Indexer 
   if e.obj ≠ o then r                                          -- other objects: untouched
   else
     let excl0 := if e.deleted then none else r.excl            -- deletion forgets the exclusions
-    if !(cfg.any (fun c' => decide (c'.res = e.res))) then ⟨r.contrib, excl0⟩  -- kind not indexed at all
-    else if e.deleted then ⟨[], none⟩                          -- deleted: values removed
-    else if !(c.selects e) then ⟨[], r.excl⟩                   -- filter mismatch: values removed
+    if !(cfg.any (fun c' => decide (c'.res = e.res))) then { r with excl := excl0 }  -- kind not indexed at all
+    else if e.deleted then { r with contrib := [], excl := none }      -- deleted: values removed
+    else if !(c.selects e) then { r with contrib := [] }       -- filter mismatch: values removed
     else
-      let h := HState.ofOpt r.excl
-      if !(h.awake e.t) then ⟨[], some h⟩                      -- excluded: not even invoked
-      else if (match c.retries with | some n => decide (h.retries ≥ n) | none => false) then
-        ⟨[], some ⟨h.retries + 1, none, true⟩⟩                 -- retries budget is zero: permanent
-      else match rule c defaultBackoff h (e.script c.id) with
-        | .set m => ⟨m, none⟩
-        | .keep => ⟨r.contrib, none⟩
-        | .dropRetry d => ⟨[], some ⟨h.retries + 1, d.map (e.t + ·), false⟩⟩
-        | .dropForever => ⟨[], some ⟨h.retries + 1, none, true⟩⟩
+      let h := HState.ofOpt e.t r.excl
+      if !(h.awake e.t) then { r with contrib := [], excl := some h }  -- excluded: not even invoked
+      else if c.exhausted h e.t then                           -- the budget is used up: permanent, no call
+        { r with contrib := [], excl := some ⟨h.retries + 1, none, true, h.started⟩ }
+      else match rule c defaultBackoff e.t h (e.script c.id) with
+        | .set m => ⟨m, none, m :: r.hist⟩
+        | .keep => { r with excl := none }
+        | .dropRetry d => { r with contrib := [], excl := some ⟨h.retries + 1, d.map (e.t + ·), false, h.started⟩ }
+        | .dropForever => { r with contrib := [], excl := some ⟨h.retries + 1, none, true, h.started⟩ }
 
 def refRun (cfg : List (Indexer Id Res L)) (defaultBackoff : Nat) (c : Indexer Id Res L) (o : O) :
     RefSt K V → List (Event Id Res L K V O) → RefSt K V
@@ -425,5 +444,73 @@ def refRun (cfg : List (Indexer Id Res L)) (defaultBackoff : Nat) (c : Indexer I
 def groupBy (ref : O → List (Option K × V)) (k : Option K) (o : O) : Option V := lastval k (ref o)
 
 end Ref
+
+
+/-! ### statement-level vocabulary of the property theorems (`Kopf/Props/C17.lean`) -/
+
+section Vocabulary
+variable {K V O : Type} [DecidableEq K] [DecidableEq O]
+
+/-- forward and reverse map agree: `k ∈ rev[o] ↔ o ∈ fwd[k]` (the reverse index says exactly where
+    an object's values are) -/
+def Index.Cons (ix : Index K V O) : Prop := ∀ k o, k ∈ ix.rkeys o ↔ (ix.val k o).isSome
+/-- no empty `Store` is left in `Index.__items` ("collections are never empty") -/
+def Index.StoreNe (ix : Index K V O) : Prop := ∀ k st, aget k ix.items = some st → st ≠ []
+/-- no empty set is left in `Index.__reverse` -/
+def Index.RevNe (ix : Index K V O) : Prop := ∀ o r, aget o ix.reverse = some r → r ≠ []
+/-- representation invariant of "Python set as list": no duplicates -/
+def Index.RevNodup (ix : Index K V O) : Prop := ∀ o r, aget o ix.reverse = some r → r.Nodup
+
+/-- the consistency invariant of one `Index` object -/
+structure Index.Inv (ix : Index K V O) : Prop where
+  cons : ix.Cons
+  storeNe : ix.StoreNe
+  revNe : ix.RevNe
+  revNodup : ix.RevNodup
+
+/-- "is a Python dict of Python dicts plus a Python dict": keys are unique in `__items`, in every
+    `Store.__items` and in `__reverse` (so the association lists denote dicts) -/
+structure Index.ND (ix : Index K V O) : Prop where
+  items : (ix.items.map Prod.fst).Nodup
+  stores : ∀ k st, (k, st) ∈ ix.items → (st.map Prod.fst).Nodup
+  reverse : (ix.reverse.map Prod.fst).Nodup
+
+/-- "stored value vs. latest documented value": equal, or the stored one is `==`-equal (`veq`) to
+    the latest one (`Store._replace` keeps the stored value then). -/
+def Rel (veq : V → V → Bool) : Option V → Option V → Prop
+  | none, none => True
+  | some v', some v => v' = v ∨ veq v' v = true
+  | _, _ => False
+
+/-- `Rel` with provenance: a stored value that differs from the latest one is an *older result*:
+    it occurs under the same key in a mapping the same function returned for the same object
+    earlier (`hist` = all those mappings). -/
+def RelH (veq : V → V → Bool) (hist : List (List (K × V))) (k : K) : Option V → Option V → Prop
+  | none, none => True
+  | some v', some v => v' = v ∨ (veq v' v = true ∧ ∃ m ∈ hist, (k, v') ∈ m)
+  | _, _ => False
+
+end Vocabulary
+
+section Vocabulary2
+variable {Id Res L K V O : Type} [DecidableEq Id] [DecidableEq Res] [DecidableEq L]
+  [DecidableEq K] [DecidableEq O]
+
+/-- every index of the operator satisfies the consistency invariant -/
+def State.InvAll (s : State Id K V O) : Prop := ∀ i, (s.ixs i).Inv
+/-- every index of the operator has unique keys -/
+def State.NDAll (s : State Id K V O) : Prop := ∀ i, (s.ixs i).ND
+
+/-- the retry record (`progression.HandlerState`) the code uses for handler `c` and this event's
+    object: the remembered one, or a fresh one started now -/
+def hOf (s : State Id K V O) (e : Event Id Res L K V O) (c : Indexer Id Res L) : HState :=
+  hstateOf e.t (s.mem e.obj) c.id
+
+/-- is the index function of `c` considered for a call in this event's cycle (selected by resource
+    and filter, and `awakened`: not failed for good, not sleeping)? -/
+def invoked (s : State Id K V O) (e : Event Id Res L K V O) (c : Indexer Id Res L) : Bool :=
+  c.selects e && (hOf s e c).awake e.t
+
+end Vocabulary2
 
 end Kopf.C17
